@@ -177,6 +177,112 @@ def tandem_case(rng: random.Random):
     return ref, coords, truth, left, right
 
 
+def cluster_deletion_case(rng: random.Random):
+    """a deletion of d1 + d2 in the molecule that removes two reference labels, one d1 behind the left flank label and one
+    d2 before the SECOND label after the deletion, and seeds on the three diagonals lag, lag + d1, lag + d1 + d2: the
+    seed in the middle gives a short spurious segment that shares a query label with each neighbour (it is cut down to
+    one pair by the left neighbour and then compared with the right one)"""
+    nref = rng.randint(30, 50)
+    base = make_reference(rng, nref, min_gap=6000, mean_gap=rng.choice([11000, 13000]))
+    i = rng.randint(8, nref - 10)
+    a, g = rng.randint(3500, 6000), rng.randint(2500, 4500)
+    d1 = rng.randint(2500, 3500)
+    d2 = rng.randint(g + 800, g + 2500)
+    L = base[i]
+    E1, E2 = L + d1, L + a + d1 + g
+    S1 = L + a + d1 + d2
+    S2 = S1 + g
+    tail = [v - base[i + 1] + S2 + rng.randint(9000, 14000) for v in base[i + 1:]]
+    ref = base[:i + 1] + [E1, E2, S1, S2] + tail
+    if sorted(ref) != ref or any(y - x < 1000 for x, y in zip(ref, ref[1:])):
+        return ladder_case(rng)
+    # the molecule: a window around the deletion, without E1 / E2, the part behind the deletion moved left by d1 + d2
+    w0 = rng.randint(max(0, i - 16), i - 6)
+    w1 = min(len(ref), i + 5 + rng.randint(8, 18))
+    xs = []
+    for k in range(w0, w1):
+        if ref[k] in (E1, E2):
+            continue
+        v = ref[k] - (d1 + d2 if ref[k] >= S1 else 0)
+        xs.append((v - ref[w0] + int(rng.gauss(0, rng.choice([0, 0, 40]))), k + 1))
+    xs.sort()
+    qry = [v - xs[0][0] for v, _ in xs]
+    truth = [(r, k + 1) for k, (_, r) in enumerate(xs)]
+    rev = rng.random() < 0.7
+    qlen = qry[-1] + 1
+    n = len(qry)
+    if rev:
+        stored = sorted((qlen - 1) - c for c in qry)
+        truth = [(r, n + 1 - q) for r, q in truth]
+        fed = {k + 1: (qlen - 1) - stored[k] for k in range(n)}
+    else:
+        stored = qry
+        fed = {k + 1: qry[k] for k in range(n)}
+    lag = ref[w0] - (xs[0][0] - xs[0][0]) - 0
+    lag = ref[truth[0][0] - 1] - fed[truth[0][1]] if not rev else None
+    left = [t for t in truth if ref[t[0] - 1] <= L]
+    r0, q0 = rng.choice(left)
+    lagA = ref[r0 - 1] - fed[q0]
+    peaks = [lagA + rng.randint(-60, 60), lagA + d1 + rng.randint(-60, 60), lagA + d1 + d2 + rng.randint(-60, 60)]
+    rng.shuffle(peaks)
+    params = Params(sp=1000, dp=1.0, su=-250, d=1500, ms=1000, bs=1200, sj=rng.choice([1.0, 1.0, 0.5]),
+                    ss=rng.choice([0, 0, 1]))
+    return dict(ref=ref, qry=stored, rev=rev, peaks=peaks, params=params, truth=truth, qlen=qlen)
+
+
+def double_indel_case(rng: random.Random):
+    """two small indels (2-6 kb each, larger than maxDistance) with only one or two labels between them, a seed on each
+    of the three diagonals: the middle segment holds one or two pairs and is trimmed by both neighbours"""
+    nref = rng.randint(30, 60)
+    ref = make_reference(rng, nref, min_gap=2000, mean_gap=rng.choice([7000, 9000]))
+    wlen = rng.randint(14, min(34, nref - 2))
+    w0 = rng.randint(0, nref - wlen)
+    i1 = rng.randint(w0 + 4, w0 + wlen - 7)
+    # a cluster of close labels around the two break points (neighbouring diagonals then pair the same labels)
+    for j in range(max(w0 + 1, i1 - 2), min(w0 + wlen - 1, i1 + 4)):
+        if rng.random() < 0.6:
+            gap = rng.randint(1200, 3800)
+            delta = (ref[j] - ref[j - 1]) - gap
+            ref = ref[:j] + [v - delta for v in ref[j:]]
+    i2 = i1 + rng.choice([1, 1, 2])
+    sign = rng.choice([-1, 1])
+    d1, d2 = sign * rng.randint(2000, 6000), sign * rng.randint(2000, 6000)
+    xs = []
+    shift = 0
+    for i in range(w0, w0 + wlen):
+        if i == i1:
+            shift += d1
+        if i == i2:
+            shift += d2
+        xs.append((ref[i] - ref[w0] + shift + int(rng.gauss(0, rng.choice([0, 50]))), i + 1))
+    xs.sort()
+    if any(b[0] - a[0] < 300 for a, b in zip(xs, xs[1:])):
+        return ladder_case(rng)
+    qry = [v - xs[0][0] for v, _ in xs]
+    truth = [(r, k + 1) for k, (_, r) in enumerate(xs)]
+    rev = rng.random() < 0.6
+    qlen = qry[-1] + 1
+    n = len(qry)
+    if rev:
+        stored = sorted((qlen - 1) - c for c in qry)
+        truth = [(r, n + 1 - q) for r, q in truth]
+        fed = {k + 1: (qlen - 1) - stored[k] for k in range(n)}
+    else:
+        stored = qry
+        fed = {k + 1: qry[k] for k in range(n)}
+    groups = [[t for t in truth if t[0] <= i1], [t for t in truth if i1 < t[0] <= i2], [t for t in truth if t[0] > i2]]
+    peaks = []
+    for grp in groups:
+        if grp:
+            r, q = rng.choice(grp)
+            peaks.append(ref[r - 1] - fed[q] + rng.randint(-80, 80))
+    rng.shuffle(peaks)
+    params = Params(sp=1000, dp=rng.choice([1.0, 1.0, 0.5]), su=rng.choice([-250, -250, -100]),
+                    d=rng.choice([1500, 1500, 1000]), ms=1000, bs=rng.choice([1200, 1200, 2500]),
+                    sj=rng.choice([1.0, 1.0, 0.5]), ss=rng.choice([0, 0, 1]))
+    return dict(ref=ref, qry=stored, rev=rev, peaks=peaks, params=params, truth=truth, qlen=qlen)
+
+
 def ladder_case(rng: random.Random):
     """a realistic multi-peak input for Aligner.getSegments / resolveConflicts / align:
     returns dict(ref, qry (forward, trimmed), rev, peaks, params, truth)"""
@@ -205,6 +311,11 @@ def ladder_case(rng: random.Random):
                         d=rng.choice([1500, 1500, 1000, 2000]), ms=1000, bs=rng.choice([1200, 1200, 2500]),
                         sj=rng.choice([1.0, 1.0, 0.5]), ss=rng.choice([0, 0, 1]))
         return dict(ref=ref, qry=stored, rev=rev, peaks=peaks, params=params, truth=truth, qlen=qlen)
+    u0 = rng.random()
+    if u0 < 0.1:
+        return double_indel_case(rng)
+    if u0 < 0.2:
+        return cluster_deletion_case(rng)
     nref = rng.randint(25, 60)
     ref = make_reference(rng, nref, min_gap=rng.choice([400, 800, 2000]), mean_gap=rng.choice([5000, 9000, 14000]),
                          repeats=rng.random() < 0.35)
